@@ -339,6 +339,10 @@ class Program:
 
             _split_conditional_receivers(tree)
             _build_conditional_dicts(tree)
+            from .normalize import _unroll_table_comprehensions
+
+            if _unroll_table_comprehensions(tree):
+                forward_substitute_temps(tree)
             n_se = expand_search_idioms(tree)
             if n_se:
                 inlined = inlined + [f"expanded {n_se} next()/any()/all() search idiom(s) into loops"]
